@@ -88,6 +88,16 @@ func ValidateAggregateAndProof(ctx context.Context, signedAgg *phase0.SignedAggr
 		} else if !inSubtree {
 			return nil, GossipValidatorResult{IGNORE, errors.New("block not in subtree of finalized root")}
 		}
+		// Building on the finalized block is not enough: a block before the start slot of the finalized epoch
+		// (on top of a finalized block that is older than that slot) conflicts with the finalized checkpoint.
+		finSlot, _ := spec.EpochStartSlot(fin.Epoch)
+		if votedRef, ok := ch.ByBlock(att.Data.BeaconBlockRoot); !ok {
+			return nil, GossipValidatorResult{IGNORE, errors.New("aggregate voted for unknown block")}
+		} else if ancestor, ok := GetAncestor(ch, votedRef, finSlot); !ok {
+			return nil, GossipValidatorResult{IGNORE, errors.New("unknown ancestor of voted block, cannot check finalized checkpoint")}
+		} else if ancestor != fin.Root {
+			return nil, GossipValidatorResult{IGNORE, errors.New("block conflicts with the finalized checkpoint")}
+		}
 	} else if finRef, ok := ch.ByBlock(fin.Root); !ok {
 		return nil, GossipValidatorResult{IGNORE, errors.New("unknown finalized block")}
 	} else if spec.SlotToEpoch(finRef.Step().Slot()) > att.Data.Target.Epoch {
